@@ -660,8 +660,12 @@ fn expand(cfg: &Cfg, mode: Mode, tier: Tier, hist: &Vec<Step>, report: &mut Repo
     let mut succ = Vec::new();
     for op in ops {
         for e in [Epilogue::FlushThenDrop, Epilogue::DropOnly] {
+            // every sequence of sink answers for the small capacity; at most two departures from
+            // "accept everything" per transition for the large ones (the tree is exponential in the
+            // number of sink calls otherwise)
+            let bound = if cfg.capacity == Some(8) { None } else { Some(2) };
             let r = explore(
-                None,
+                bound,
                 |prefix| {
                     let t = transition(cfg, mode, hist, &op, &prefix, e);
                     if let Some(d) = t.diverged {
